@@ -296,6 +296,18 @@ def run(ctx):
     # ------------------------------------------------------------------ R3
     _order(ctx, fn)
 
+    from rules.common import crosscheck_many
+    crosscheck_many(ctx, "C17.R3", [
+        (SL + ".loadConfigFile", "sl_loadConfigFile", None,
+         "parse into a fresh top section"),
+        (SL + ".Context.__init__", "sl_context_init", SL + ".Context",
+         "fresh top section"),
+        (SL + ".Context.endSection", "sl_endSection", SL + ".Context",
+         "closing adds nothing"),
+        (SL + ".Section.__init__", "sl_section_init", SL + ".Section",
+         "type, name, data, sections as given"),
+    ])
+
     # ------------------------------------------------------------------ R4
     from zcstatic import excflow
     for q in (SL + ".Parser.handle_define",
